@@ -447,7 +447,8 @@ impl Engine for C17 {
                 };
                 let out = if mode == "filter" || mode == "cond" {
                     // the embedder's arena sizes are a tuning knob; a loop iteration must give back what it took
-                    pipeline::run_library_caps(&src, true, None, pipeline::ARENA_CAP, (case["frame_kib"].as_u64().unwrap_or(256) as usize) << 10)
+                    // (the persistent arena too: 6 MiB hold the pools, the program and every printed line many times over)
+                    pipeline::run_library_caps(&src, true, None, 6 << 20, (case["frame_kib"].as_u64().unwrap_or(256) as usize) << 10)
                 } else {
                     pipeline::run_library(&src, true, None)
                 };
